@@ -1393,6 +1393,67 @@ def dispatch(ctx, world):
         ctx.fail("A13.align", "sum_outgrads", "autograd.core.sum_outgrads", loc_of(m4, node4), "forward-mode tangents are not summed with reduce(add_outgrads, gs, None)[0]", "forward mode through a primitive with two differentiated arguments")
 
 
+def programmatic_registrations(ctx, world):
+    """A13.align, registration clause: a function of core.py that registers rules itself (the deprecated defvjp /
+    defvjp_is_zero / defgrad adapters) passes makers and argnums= of the same length: defvjp pairs them with zip, so
+    a shorter maker list silently drops the remaining declarations"""
+    from ..tutil import norm_seq
+
+    ctx.describe("A13.align/registrations", "every call defvjp(f, *makers, argnums=A) / defjvp(...) made from inside a function of core.py has len(makers) == len(A) by construction: both are length-preserving views (sorted / tuple / list / a comprehension without filter / a column of zip(*pairs) / [c] * len(.)) of one and the same collection")
+    ev = world.ev
+
+    def base(t, depth=0):
+        while t is not None and t.op == "seq":
+            t = t.value
+        if t is None or depth > 8:
+            return t
+        if t.op == "star":
+            return base(t.x, depth + 1)
+        if t.op == "call" and t.fn.op == "ref" and t.fn.ref.qual in ("builtins.sorted", "builtins.tuple", "builtins.list", "builtins.reversed", "builtins.iter") and len(t.args) == 1:
+            return base(t.args[0], depth + 1)
+        if t.op == "call" and t.fn.op == "attr" and t.fn.name in ("keys", "items", "values") and not t.args:
+            return base(t.fn.obj, depth + 1)
+        if t.op == "call" and t.fn.op == "ref" and t.fn.ref.qual in ("builtins.map", "itertools.starmap") and len(t.args) == 2 and not t.kw:
+            return base(t.args[1], depth + 1)  # one result per element
+        if t.op == "call" and t.fn.op == "ref" and t.fn.ref.qual == "itertools.repeat" and len(t.args) == 2 and is_call_to(t.args[1], "builtins.len") and len(t.args[1].args) == 1:
+            return base(t.args[1].args[0], depth + 1)
+        if t.op == "bin" and t.opname == "Mult":
+            for seq_, k_ in ((t.l, t.r), (t.r, t.l)):
+                if seq_.op in ("list", "tuple") and len(seq_.elts) == 1 and is_call_to(k_, "builtins.len") and len(k_.args) == 1:
+                    return base(k_.args[0], depth + 1)
+        n_ = norm_seq(t)
+        if n_.op == "comp" and not n_.conds and n_.get("kind") in ("GeneratorExp", "ListComp"):
+            return base(n_.src, depth + 1)
+        return t
+
+    n = 0
+    for name in ("deprecated_defvjp", "deprecated_defvjp_is_zero", "deprecated_defgrad"):
+        try:
+            clo, top, syms, m, fn, sc = returned_closure(world, CORE, name)
+        except Exception:
+            continue
+        a = clo.fnode.args
+        ps = [T("sym", name=p.arg, role="param") for p in a.posonlyargs + a.args]
+        ev.apply(clo, ps, {}, [])
+        cs = ev._last_scope
+        for e in list(cs.effects) if cs is not None else []:
+            for t in walk(unseq(expand(ev, e, {"autograd.core.defvjp", "autograd.core.defjvp"}))):
+                if not (t.op == "call" and t.fn.op == "ref" and t.fn.ref.qual in ("autograd.core.defvjp", "autograd.core.defjvp") and "argnums" in t.kw):
+                    continue
+                stars = [x for x in t.args[1:] if x.op == "star"]
+                if len(stars) != 1 or len(t.args) != 2:
+                    continue
+                n += 1
+                bm, ba = base(stars[0]), base(t.kw["argnums"])
+                ok = bm is ba or same(bm, ba)
+                inst = f"autograd.core.{name}: makers and argnums= have the same length by construction"
+                if ok:
+                    ctx.ob("A13.align", inst, True, loc_of(m, clo.fnode))
+                else:
+                    ctx.fail("A13.align", inst, f"autograd.core.{name}:maker-argnums-length", loc_of(m, clo.fnode), f"the makers handed to defvjp are sized from `{str(bm)[:50]}` but argnums= from `{str(ba)[:50]}`: zip(argnums, makers) silently drops what does not pair up", "a primitive whose rules are declared by several calls of the adapter (f.defvjp_is_zero(argnums=(0,)); f.defvjp_is_zero(argnums=(1,))): only part of the declarations survive")
+    ctx.floor("A13.align programmatic registrations seen", n, 1)
+
+
 def _isbox_known_true(test, taken):
     """does taking (taken=True) / not taking the branch on `test` establish isbox(...)?"""
     pol = bool(taken)
